@@ -481,7 +481,8 @@ def factor_table() -> List[Tuple[str, str, Optional[str], dict]]:
         T.append((factor, variant, flag, ov))
 
     for name, s in (("empty", ""), ("ascii", "Hello, world"), ("2-byte", "héllo ü"), ("3-byte", "✓ 日本"),
-                    ("4-byte", "\U0001d532\U0001d52b\U0001d526"), ("long-300", "x" * 299 + "é")):
+                    ("4-byte", "\U0001d532\U0001d52b\U0001d526"), ("long-300", "x" * 299 + "é"),
+                    ("len-1023", "y" * 1023), ("len-1024", "y" * 1024), ("len-1025", "y" * 1023 + "é"), ("len-5000", "z" * 5000)):
         add("Text", name, "TEXT", Text=s)
         add("MediaURL", name, "MEDIA_URL", MediaURL=s)
     for name, c in (("zero", b"\x00\x00\x00\x00"), ("ff", b"\xff\xff\xff\xff"), ("alpha-only", b"\x00\x00\x00\xff")):
